@@ -675,6 +675,25 @@ pub fn run_property(p: &Property, tier: Tier, seed: u64, only_sub: Option<&str>)
     code
 }
 
+/// lines "fuzz target=<t> runs=<n> exit=<c>" written by /verif/fuzz/run_fuzz.sh for this run
+fn fuzz_summary() -> Vec<Value> {
+    let mut out = Vec::new();
+    if let Ok(p) = std::env::var("VERIF_FUZZ_SUMMARY") {
+        if let Ok(s) = std::fs::read_to_string(&p) {
+            for l in s.lines().filter(|l| l.starts_with("fuzz target=")) {
+                let mut o = serde_json::Map::new();
+                for kv in l.split_whitespace().skip(1) {
+                    if let Some((k, v)) = kv.split_once('=') {
+                        o.insert(k.to_string(), v.parse::<u64>().map(Value::from).unwrap_or_else(|_| Value::from(v)));
+                    }
+                }
+                out.push(Value::Object(o));
+            }
+        }
+    }
+    out
+}
+
 fn scale_cases(n: u64) -> u64 {
     // VERIF_SCALE (percent) lets a developer shorten or deepen a run; default 100
     let pct: u64 = std::env::var("VERIF_SCALE").ok().and_then(|v| v.parse().ok()).unwrap_or(100);
@@ -718,6 +737,7 @@ fn write_evidence(
             "known_finding_hits": total.known_hits,
             "excluded_by_construction": total.excluded,
             "regression_replays_run": regress_run,
+            "fuzz_campaigns": fuzz_summary(),
             "threads": threads(),
         },
         "assumptions": p.assumptions,
